@@ -142,6 +142,11 @@ def run_case(ctx, case):
                 if problems:
                     return
                 prev_sig = repr(st["array"])
+                nxt = case["steps"][k + 1] if k + 1 < len(case["steps"]) else None
+                if not (nxt and nxt.get("inplace")):
+                    # the application drops the frame it has drawn before it builds the next one
+                    # (CPython hands the freed rows' addresses to the new ones)
+                    prev_obj = arr = vals = v = None
     finally:
         out.close()
 
